@@ -765,6 +765,17 @@ func (w *world) startKubelet(name string) {
 	pp := w.plan.pod(name)
 	w.spawn("kubelet:"+name, nil, true, func(a *actor) {
 		time.Sleep(time.Duration(a.rnd.IntN(3001)) * time.Microsecond)
+		switch pp.Fate {
+		case "rejected", "succeeded-unseen":
+			// the pod reaches its terminal phase straight from Pending
+			time.Sleep(time.Duration(pp.FateDelayUs) * time.Microsecond)
+			ph := v1.PodSucceeded
+			if pp.Fate == "rejected" {
+				ph = v1.PodFailed
+			}
+			_ = w.setPhase(name, ph)
+			return
+		}
 		if w.setPhase(name, v1.PodRunning) != nil {
 			return
 		}
